@@ -1,5 +1,6 @@
 import SFV.Proofs.GaussCompile
 import SFV.Proofs.GaussBlocks
+import SFV.Proofs.GaussMerge
 
 /-!
 # C11 — Gaussian-merging compilers return a program with the same net action
@@ -275,6 +276,42 @@ theorem merge_surgery_order (l ms ds : List Cmd) (g : Cmd) (out : List Cmd)
   refine ⟨fun ha hb' => ?_, fun ha hb' => ?_, fun ha hb' => ?_⟩ <;>
     rcases h with h | ⟨h1, h2⟩ <;> first | (simpa [cpos, ha, hb'] using h) | exact absurd h1 ha | exact absurd h2 hb'
 
+/-- **surgery, predecessors precede everything that is emitted** — also when the block reduces to displacement
+gates alone (`g` is then the first `Dgate`, `ds` the others; seeded change C11-b1 dropped the edges `g → d`): a
+command that stays and shares a wire with a merged command that follows it comes before `g` and before every
+`d ∈ ds`. -/
+theorem merge_surgery_pred_before_all_emitted (l ms ds : List Cmd) (g : Cmd) (out : List Cmd)
+    (hf : forward (surgeryEdges l ms g ds) out = true) (a b : Cmd) (hb : Before l a b) (hd : dep a b)
+    (ha : a ∉ ms) (hbm : b ∈ ms) : ∀ e ∈ g :: ds, out.idxOf a < out.idxOf e := by
+  have hg : out.idxOf a < out.idxOf g := by
+    rcases surgery_order l ms ds g out hf hb hd with h | ⟨h1, _⟩
+    · simpa [cpos, ha, hbm] using h
+    · exact absurd h1 ha
+  intro e he
+  rcases List.mem_cons.1 he with rfl | he
+  · exact hg
+  · have : out.idxOf g < out.idxOf e := by
+      simp only [forward, List.all_eq_true, decide_eq_true_eq] at hf
+      refine hf (g, e) ?_
+      simp only [surgeryEdges, List.mem_append, List.mem_map]
+      exact Or.inr ⟨e, he, rfl⟩
+    omega
+
+/-- without the edges `g → d` (C11-b1) `Sgate|1; Kgate|1; BS|(0,1); D|0; D|1; BS.H|(0,1)` admits the order in
+which the displacement of mode 1 is emitted before the Kerr gate of mode 1 -/
+def dSrc : List Cmd :=
+  [ { id := 0, cls := "Sgate", regs := [1] }, { id := 1, cls := "Kgate", regs := [1] },
+    { id := 2, cls := "BSgate", regs := [0, 1] }, { id := 3, cls := "Dgate", regs := [0] },
+    { id := 4, cls := "Dgate", regs := [1] }, { id := 5, cls := "BSgate", regs := [0, 1] } ]
+def dD0 : Cmd := { id := 10, cls := "Dgate", regs := [0] }
+def dD1 : Cmd := { id := 11, cls := "Dgate", regs := [1] }
+theorem merge_displacements_only_counterexample :
+    forward (surgeryEdges dSrc (dSrc.drop 2) dD0 []) [dD1, dSrc[0]!, dSrc[1]!, dD0] = true ∧
+    forward (surgeryEdges dSrc (dSrc.drop 2) dD0 [dD1]) [dD1, dSrc[0]!, dSrc[1]!, dD0] = false ∧
+    forward (surgeryEdges dSrc (dSrc.drop 2) dD0 [dD1]) [dSrc[0]!, dSrc[1]!, dD0, dD1] = true ∧
+    checkMerge dSrc [dD1, dSrc[0]!, dSrc[1]!, dD0] [⟨[2, 3, 4, 5], [10, 11]⟩] [.keep 0, .keep 1, .block 0] = false := by
+  decide
+
 /-- **surgery, order relative to an emitted displacement gate** on mode `q` (no measured-parameter
 dependencies on `q`): a command that stays, acts on `q` and follows a merged command on `q` comes after it. -/
 theorem merge_surgery_order_disp (l ms ds : List Cmd) (g d : Cmd) (out : List Cmd) (q : Nat)
@@ -283,6 +320,25 @@ theorem merge_surgery_order_disp (l ms ds : List Cmd) (g d : Cmd) (out : List Cm
     (a b : Cmd) (hb : Before l a b) (ha : q ∈ a.wires) (hbq : q ∈ b.wires) (ham : a ∈ ms) (hbm : b ∉ ms) :
     out.idxOf d < out.idxOf b :=
   surgery_order_disp l ms ds g d out q hf hd hq hregs hb ha hbq ham hbm
+
+/-- **the surgery is sound (all three order theorems packaged).**  Under `SurgeryHyp` — `out` consists of exactly
+the staying and the emitted commands, all edges of `surgeryEdges l ms g ds` point forward in it, the emitted `ds`
+are displacement gates on different modes that merged commands act on, no measured-parameter dependencies — the
+output is obtained by two legal reorderings around "merged commands made adjacent and replaced by the emitted ones",
+for every circuit, every member set and every topological sort. -/
+theorem merge_surgery_legal (l ms ds : List Cmd) (g : Cmd) (out : List Cmd) (h : SurgeryHyp l ms ds g out) :
+    Legal l (preOf g ds out ++ membersOf l ms ++ postOf g ds out) ∧
+    Legal (preOf g ds out ++ (g :: ds) ++ postOf g ds out) out :=
+  ⟨h.legal_src, h.legal_out⟩
+
+/-- … hence, if the emitted commands mean the ordered product of the merged ones (`net_symplectic` for the inner
+`GaussianUnitary.compile`), the result of a merge step means the same as the circuit before it, in every monoid
+interpretation in which commands without a common wire commute. -/
+theorem merge_surgery_sound {M : Type} [Monoid M] (f : Cmd → M)
+    (hcomm : ∀ a b, ¬ dep a b → f a * f b = f b * f a) (l ms ds : List Cmd) (g : Cmd) (out : List Cmd)
+    (h : SurgeryHyp l ms ds g out) (hblk : sem f (g :: ds) = sem f (membersOf l ms)) :
+    sem f out = sem f l :=
+  h.sem_eq f hcomm hblk
 
 /-- **surgery, cancelling block.**  When the merged commands compose to the identity nothing is emitted and
 `new_DAG` has the edges `surgeryEdgesNil l ms` (staying edges, and every predecessor of a merged command connected
@@ -391,5 +447,37 @@ example : (∀ a ∈ exAffine, ∀ m ∈ a.regs, m ∈ List.range 10) ∧ (∀ a
 /-- the surgery edges of the hybrid example: the Kerr gate is connected to the block before and after it -/
 example : forward (surgeryEdges mSrc [mSrc[4]!, mSrc[5]!] mOut[2]! [mOut[3]!])
     [mSrc[0]!, mSrc[1]!, mSrc[2]!, mSrc[3]!, mOut[2]!, mOut[3]!] = true := by decide
+
+/-- `SurgeryHyp` is met by the second merge of the hybrid example (`Rgate|1; Dgate|1` after the Kerr gate replaced
+by `GaussianTransform|1; Dgate|1`) -/
+def hL : List Cmd := [mOut[0]!, mSrc[3]!, mSrc[4]!, mSrc[5]!]
+example : SurgeryHyp hL [mSrc[4]!, mSrc[5]!] [mOut[3]!] mOut[2]! mOut where
+  nodup := by decide
+  fresh := by decide
+  outNodup := by decide
+  esNodup := by decide
+  fwd := by decide
+  dsIndep := by decide
+  noDeps := by decide
+  dsWire := by
+    intro d hd
+    simp only [List.mem_singleton] at hd
+    subst hd
+    exact ⟨1, by decide, by decide, mSrc[4]!, by decide, by decide, by decide⟩
+  mem_out := by
+    intro c
+    constructor
+    · intro hc
+      simp only [mOut, List.mem_cons, List.not_mem_nil, or_false] at hc
+      rcases hc with rfl | rfl | rfl | rfl <;> decide
+    · rintro (⟨hc, hm⟩ | hc)
+      · simp only [hL, List.mem_cons, List.not_mem_nil, or_false] at hc
+        rcases hc with rfl | rfl | rfl | rfl
+        · decide
+        · decide
+        · exact absurd (by decide) hm
+        · exact absurd (by decide) hm
+      · simp only [List.mem_cons, List.not_mem_nil, or_false] at hc
+        rcases hc with rfl | rfl <;> decide
 
 end SFV.C11
